@@ -186,6 +186,9 @@ type pcall struct {
 	name string
 	run  func() (obs string, roots []ast.Node)
 	full func() (obs string, roots []ast.Node, val any) // optional: also returns the complete returned value
+	// optional: the same call on a caller-owned copy of the argument (input is the argument's text)
+	input   string
+	fullArg func(arg string) (obs string, roots []ast.Node, val any)
 }
 
 // obsParseFull also returns the complete value (nodes and error) of the call, so that histories can
@@ -223,7 +226,8 @@ func obsOf(res ParseResult) (string, []ast.Node) {
 
 func parseCall(entry, input string) pcall {
 	return pcall{entry + "(" + fmt.Sprintf("%q", input) + ")", func() (string, []ast.Node) { return obsParse(entry, input) },
-		func() (string, []ast.Node, any) { return obsParseFull(entry, input) }}
+		func() (string, []ast.Node, any) { return obsParseFull(entry, input) },
+		input, func(arg string) (string, []ast.Node, any) { return obsParseFull(entry, arg) }}
 }
 
 func splitCall(input string) pcall {
@@ -233,7 +237,7 @@ func splitCall(input string) pcall {
 		pv, _ := explore.Try(func() { ps, err = memefish.SplitRawStatements("f.sql", input) })
 		return dumpOf(ps) + fmt.Sprint(err, pv), nil, []any{ps, err}
 	}
-	return pcall{fmt.Sprintf("SplitRawStatements(%q)", input), func() (string, []ast.Node) { o, r, _ := f(); return o, r }, f}
+	return pcall{name: fmt.Sprintf("SplitRawStatements(%q)", input), run: func() (string, []ast.Node) { o, r, _ := f(); return o, r }, full: f}
 }
 
 // scribble overwrites everything a caller can overwrite in a returned value: every exported field,
@@ -309,6 +313,11 @@ var purityCalls = []pcall{
 	// every escape kind in every literal kind (scratch buffers of the decoder)
 	parseCall("ParseExpr", `'\u00e9\U0001F600\x41\101\n' || "\u0041\u00e8"`),
 	parseCall("ParseQuery", "SELECT b'\\xff\\000\\n', '\\u4e16\\u754c' FROM `a\\u00e9\\U0001F601b`"),
+	// escape-free literals (candidates for sharing memory with the argument); CRLF vs LF inputs with errors on later lines
+	parseCall("ParseExpr", "b\"abc\" || 'def' || `ghi`"),
+	parseCall("ParseQuery", "SELECT 1,\n  2,\n  3 +"),
+	parseCall("ParseQuery", "SELECT 1,\r\n  2,\r\n  3 +"),
+	parseCall("ParseQuery", "SELECT 1,\r  2 +"),
 	splitCall("a; b"),
 	splitCall(""),
 	splitCall(" /*c*/ "),
@@ -323,10 +332,10 @@ var purityCalls = []pcall{
 	}, func() (string, []ast.Node, any) {
 		toks, _, err, pv := fullLex("select `select` 'x' 0x1")
 		return dumpOf(toks) + fmt.Sprint(err, pv), nil, []any{toks, err}
-	}},
+	}, "", nil},
 	{"QuoteSQLIdent/String", func() (string, []ast.Node) {
 		return token.QuoteSQLIdent("select") + token.QuoteSQLString("a'b") + token.QuoteSQLBytes([]byte("\x00")), nil
-	}, nil},
+	}, nil, "", nil},
 }
 
 // ops on an AST returned earlier in the same history
@@ -423,6 +432,7 @@ func C18(r *explore.Run) {
 		}
 		var asts []kept
 		var results []keptResult
+		var args []keptArg
 		var hist []string
 		for step := 0; step < n; step++ {
 			nalt := 1 + nc + no*len(asts)
@@ -437,7 +447,15 @@ func C18(r *explore.Run) {
 				c.Input(strings.Join(hist, " ; "))
 				var obs string
 				var roots []ast.Node
-				if call.full != nil {
+				if call.fullArg != nil {
+					// the argument is a string the caller owns (a fresh heap copy): it must still read the same
+					// after the caller has overwritten everything the call returned
+					arg := string(append([]byte(nil), call.input...))
+					var val any
+					obs, roots, val = call.fullArg(arg)
+					results = append(results, keptResult{val, dumpOf(val), call.name})
+					args = append(args, keptArg{arg, call.input, call.name})
+				} else if call.full != nil {
 					var val any
 					obs, roots, val = call.full()
 					results = append(results, keptResult{val, dumpOf(val), call.name})
@@ -542,6 +560,12 @@ func C18(r *explore.Run) {
 			for _, kr := range results {
 				scribble(reflect.ValueOf(kr.val), seen, 0)
 			}
+			for _, ka := range args {
+				if ka.arg != ka.want {
+					c.Violation("C18/history/result-aliases-argument/"+ka.from, strings.Join(hist, " ; ")+" ; <caller overwrites the returned values>",
+						fmt.Sprintf("after the caller overwrote the values returned by %s, the argument string it passed reads %q instead of %q: the result shares memory with the argument", ka.from, ka.arg, ka.want))
+				}
+			}
 			for j, call := range purityCalls {
 				o, _ := call.run()
 				transitions++
@@ -604,6 +628,10 @@ func C18(r *explore.Run) {
 }
 
 var globalsDigestInitial = ""
+
+type keptArg struct {
+	arg, want, from string
+}
 
 type keptResult struct {
 	val    any
